@@ -399,6 +399,30 @@ Check C18_guards_needed :
                   parse_origin parse_origin_tab text <> (None, v)).
 Print Assumptions C18_guards_needed.
 
+(* for the open types the guards are exact: a value reads back from its own text form if and
+   only if it satisfies the guard (nothing representable is excluded) *)
+Theorem C18_open_guards_exact :
+  (forall v, profile_from_str (profile_to_string v) = Ok v <-> profile_valid v = true) /\
+  (forall v, forwarded_from_str (forwarded_to_string v) = Ok v <-> forwarded_valid v = true) /\
+  (forall v, origin_from_str (origin_to_string v) = Ok v <-> commit_or_valid v = true) /\
+  (forall v, applied_from_str (applied_to_string v) = Ok v <-> commit_or_valid v = true) /\
+  (forall v, license_from_str (license_to_string v) = Ok v <-> license_valid v = true) /\
+  (forall v, signature_from_str (signature_to_string v) = Ok v <-> signature_valid v = true).
+Proof.
+  split; [exact profile_guard_exact|]. split; [exact forwarded_guard_exact|].
+  split; [intros v; exact (proj1 (origin_guard_exact v))|].
+  split; [intros v; exact (proj2 (origin_guard_exact v))|].
+  split; [exact license_guard_exact|exact signature_guard_exact].
+Qed.
+Check C18_open_guards_exact :
+  (forall v, profile_from_str (profile_to_string v) = Ok v <-> profile_valid v = true) /\
+  (forall v, forwarded_from_str (forwarded_to_string v) = Ok v <-> forwarded_valid v = true) /\
+  (forall v, origin_from_str (origin_to_string v) = Ok v <-> commit_or_valid v = true) /\
+  (forall v, applied_from_str (applied_to_string v) = Ok v <-> commit_or_valid v = true) /\
+  (forall v, license_from_str (license_to_string v) = Ok v <-> license_valid v = true) /\
+  (forall v, signature_from_str (signature_to_string v) = Ok v <-> signature_valid v = true).
+Print Assumptions C18_open_guards_exact.
+
 (* PackageListEntry: an extra key containing '=' does not read back; License::Named with an empty
    name reads back as License::Text *)
 Theorem C18_guards_needed_records :
